@@ -1109,3 +1109,175 @@ Proof.
     | destruct Pp as [Pp|Pp]; rewrite Pp; reflexivity
     | intros r; cbn; rewrite claims_upd; destruct (Nat.eqb_spec r w); [apply claims_start | apply Hnc] ].
 Qed.
+
+Lemma ph_not_bad w s : J w s -> ph w s <> PhBad.
+Proof. intros Hj A. pose proof (j_loc w s Hj) as L. unfold local_ok in L. rewrite A in L. exact L. Qed.
+
+Lemma J_step_w w s : J w s -> status_of s w = SReady -> J w (fst (step s w)).
+Proof.
+  intros Hj Hst.
+  pose proof (b_shape s (j_base w s Hj) w) as Sh.
+  pose proof (ph_not_bad w s Hj) as Nb.
+  remember (stk s w) as S eqn:ES. symmetry in ES.
+  destruct Sh.
+  32: {
+    destruct c; try contradiction.
+    - (* a yield inside fiber_signal_wait *)
+      destruct (ph w s) eqn:Ep; try contradiction;
+        unfold ph in Ep; rewrite ES in Ep.
+      all: destruct y; cbn in Ep;
+        repeat match type of Ep with context [if ?b then _ else _] => destruct b eqn:? end;
+        try discriminate Ep.
+      all: try (injection Ep as <-).
+      all: try (eapply w_regy_step; [exact Hj | exact ES | unfold ph; rewrite ES; cbn;
+                  repeat match goal with H : _ = true |- _ => rewrite H | H : _ = false |- _ => rewrite H end;
+                  reflexivity]).
+      all: try (eapply w_wokey_step; [exact Hj | exact ES | unfold ph; rewrite ES; cbn;
+                  repeat match goal with H : _ = true |- _ => rewrite H | H : _ = false |- _ => rewrite H end;
+                  reflexivity]).
+      + eapply w_mset_step; [exact Hj | exact ES].
+      + eapply w_asleep_step; [exact Hj | exact ES |].
+        unfold status_of in Hst. destruct (w <? nthr s)%nat; [|discriminate].
+        rewrite ES in Hst. cbn in Hst. destruct (blocked (mem s) w); [discriminate | reflexivity].
+      + eapply w_resume_step; [exact Hj | exact ES].
+    - (* a yield of the bounded send's retry loop *)
+      apply w_out_step; auto.
+      + destruct (ph w s) eqn:Ep; try contradiction; auto;
+          unfold ph in Ep; rewrite ES in Ep; destruct y; cbn in Ep;
+          repeat match type of Ep with context [if ?b then _ else _] => destruct b eqn:? end;
+          discriminate Ep.
+      + intros p' k' A. rewrite ES in A. destruct y; discriminate A.
+  }
+  all: try (eapply w_start_step; eauto; fail).
+  all: try (eapply w_clr_step; eauto; fail).
+  all: try (eapply w_cas_step; eauto; fail).
+  all: try (eapply w_sw_step; eauto; fail).
+  all: try (eapply w_clr2_step; eauto; fail).
+  all: try (eapply w_end_step; eauto; fail).
+  all: try (eapply w_xchg_step; eauto; fail).
+  all: apply w_out_step; auto; [unfold ph; rewrite ES; reflexivity | intros p' k' A; rewrite ES in A; discriminate A].
+Qed.
+
+Theorem J_step w s t : J w s -> status_of s t = SReady -> J w (fst (step s t)).
+Proof.
+  intros Hj Hst. destruct (Nat.eq_dec t w) as [->|Hn].
+  - apply J_step_w; auto.
+  - apply J_step_other; auto.
+Qed.
+
+Theorem reachable_J w size progs s :
+  single_waiter w progs -> reachable M (init size progs) s -> J w s.
+Proof.
+  intros H. apply (invariant_ind M).
+  - apply init_J. exact H.
+  - intros s0 t Hj Hst. apply J_step; auto.
+Qed.
+
+(* ---------- consequences stated on stacks (for Properties_C11.v) ---------- *)
+Lemma ph_asleep_stack w s :
+  BInv s -> ph w s = PhAsleep -> exists a p k, stk s w = [Asleep; YLoop; FC (KWSlept a p k)].
+Proof.
+  intros B H. pose proof (b_shape s B w) as Sh. unfold ph in H.
+  remember (stk s w) as S eqn:ES. destruct Sh; cbn in H; try discriminate H.
+  destruct c; try contradiction; destruct y; cbn in H;
+    repeat match type of H with context [if ?b then _ else _] => destruct b end; try discriminate H.
+  exists a, p, k. reflexivity.
+Qed.
+
+(* registered = the registering CAS of fiber_signal_wait succeeded and w has not yet been resumed *)
+Definition registered (w : nat) (s : st) : Prop := in_reg (ph w s) = true.
+(* r has exchanged the word while it named f and has not yet scheduled f *)
+Definition committed (s : st) (r f : nat) : Prop := claims (stk s r) = Some f.
+(* the wake-up has been delivered: w is runnable again *)
+Definition wake_delivered (w : nat) (s : st) : Prop :=
+  (exists a p k, stk s w = [Asleep; YLoop; FC (KWSlept a p k)]) /\ blocked (mem s) w = false.
+
+(* threads beyond nthr never run: their stack is the initial one *)
+Definition idle_beyond (s : st) : Prop := forall t, (nthr s <= t)%nat -> claims (stk s t) = None.
+
+Lemma idle_beyond_reachable size progs s : reachable M (init size progs) s -> idle_beyond s.
+Proof.
+  apply (invariant_ind M).
+  - intros t _. reflexivity.
+  - intros s0 t H Hst u Hu.
+    assert (Hn : nthr (fst (mstep M s0 t)) = nthr s0).
+    { cbn. unfold step. destruct (kstep cc (cret (csize s0)) (mem s0) t (stk s0 t)) as [[m1 e1] s1]. reflexivity. }
+    rewrite Hn in Hu.
+    assert (Ht : (t < nthr s0)%nat).
+    { cbn in Hst. unfold status_of in Hst. destruct (Nat.ltb_spec t (nthr s0)); [assumption | discriminate]. }
+    cbn. rewrite stk_step_other by lia. apply H. exact Hu.
+Qed.
+
+Lemma claims_bounded_dec s n :
+  (exists r, (r < n)%nat /\ claims (stk s r) <> None) \/ (forall r, (r < n)%nat -> claims (stk s r) = None).
+Proof.
+  induction n as [|n IH].
+  - right. intros r Hr. lia.
+  - destruct IH as [[r [Hr Hc]]|IH].
+    + left. exists r. split; [lia | exact Hc].
+    + destruct (claims (stk s n)) eqn:E.
+      * left. exists n. split; [lia | congruence].
+      * right. intros r Hr. destruct (Nat.eq_dec r n) as [->|?]; [exact E | apply IH; lia].
+Qed.
+
+Lemma no_lost_raise w s :
+  J w s -> idle_beyond s -> registered w s -> word s <> fname w ->
+  (exists r, r <> w /\ committed s r w) \/ wake_delivered w s.
+Proof.
+  intros Hj Hi R W.
+  destruct (claims_bounded_dec s (nthr s)) as [[r [Hr Hc]]|Hn].
+  - left. exists r. destruct (claims (stk s r)) as [f|] eqn:E; [|congruence].
+    destruct (j_claim_w w s Hj r f E) as [-> Hne]. split; [exact Hne | exact E].
+  - right.
+    assert (N : no_claims s).
+    { intros r. destruct (Nat.lt_ge_cases r (nthr s)); [apply Hn; assumption | apply Hi; assumption]. }
+    destruct (j_woken w s Hj R W N) as [Hp Hb].
+    split; [apply (ph_asleep_stack w s (j_base w s Hj) Hp) | exact Hb].
+Qed.
+
+(* the C01-style ordering: a raiser is about to make f READY and schedule it only
+   when f's maintenance has already written the marker and f sleeps *)
+Lemma wake_after_sleep w s r f p k :
+  J w s -> stk s r = [FStWrite f ST_READY; FC (KRRdy f p k)] ->
+  f = w /\ r <> w /\
+  (exists a p' k', stk s w = [Asleep; YLoop; FC (KWSlept a p' k')]) /\
+  cell (mem s) (c_scr w) = READY_TO_WAKE /\ blocked (mem s) w = true /\ fstate (mem s) w = ST_WAITING.
+Proof.
+  intros Hj E.
+  assert (Hc : claims (stk s r) = Some f) by (rewrite E; reflexivity).
+  destruct (j_claim_w w s Hj r f Hc) as [-> Hne].
+  assert (Hp : ph w s = PhAsleep) by (apply (j_rdy w s Hj r); rewrite E; reflexivity).
+  pose proof (j_loc w s Hj) as L. unfold local_ok in L. rewrite Hp in L. destruct L as (_ & Ls & Lw).
+  destruct Lw as [[Lb Lf]|(_ & _ & _ & Ln)]; [|specialize (Ln r); congruence].
+  repeat split; auto. apply (ph_asleep_stack w s (j_base w s Hj) Hp).
+Qed.
+
+(* "seen": a raise that exchanged before the registering CAS makes the CAS fail; the wait does not sleep *)
+Lemma raise_seen s t a p k :
+  stk s t = [CCasC c_waiter NO_WAITER (fname t) 3; FC (KWCas a p k)] -> cell (mem s) c_waiter <> NO_WAITER ->
+  stk (fst (step s t)) t = [CStoreC c_waiter NO_WAITER 5; FC (KWEnd a p k)].
+Proof.
+  intros E H. unfold step. rewrite E. cbn.
+  destruct (Z.eqb_spec (cell (mem s) c_waiter) NO_WAITER); [contradiction|]. cbn. apply upd_same.
+Qed.
+
+(* "remembered": while nobody is committed to a wake-up, a RAISED word stays RAISED under the
+   steps of every thread other than the waiter *)
+Lemma raise_remembered w s t :
+  J w s -> t <> w -> no_claims s -> word s = RAISED -> word (fst (step s t)) = RAISED.
+Proof.
+  intros Hj Htw N W.
+  pose proof (j_base w s Hj) as B. destruct (j_others w s Hj t Htw) as [Ho Hf].
+  pose proof (b_shape s B t) as Sh.
+  assert (Q : (exists p k, stk s t = [CXchgC c_waiter RAISED 3; FC (KRX p k)]) \/
+              (forall p k, stk s t <> [CXchgC c_waiter RAISED 3; FC (KRX p k)])).
+  { remember (stk s t) as S eqn:ES. destruct Sh; try (right; intros p' k' A; discriminate A).
+    - left; eauto.
+    - right. intros p' k' A. destruct y; discriminate A. }
+  destruct Q as [(p & k & E)|Hx].
+  - unfold word, step. rewrite E. cbn.
+    destruct ((cell (mem s) c_waiter =? NO_WAITER) || (cell (mem s) c_waiter =? RAISED)); reflexivity.
+  - pose proof (other_quiet_res w s t Htw B Ho Hf (N t) Hx) as Q.
+    unfold word, step. destruct (kstep cc (cret (csize s)) (mem s) t (stk s t)) as [[m1 e1] s1]. cbn.
+    destruct Q as (Q1 & _). rewrite Q1. exact W.
+Qed.
